@@ -346,10 +346,19 @@ func VerifHarness_C15_types() {
 	ints := []string{"INT", "LENGTH", "SEQNUM", "DAYOFMONTH", "NUMINGROUP"}
 	floats := []string{"FLOAT", "QTY", "QUANTITY", "AMT", "PRICE", "PRICEOFFSET", "PERCENTAGE"}
 	times := []string{"UTCTIMESTAMP", "TIME"}
-	fam := verifConc(ndInt("family", 0, 3))
+	fam := verifConc(ndInt("family", 0, 4))
 	var typ string
 	var good, bad []byte
 	switch fam {
+	case 4:
+		// every other type name the shipped dictionaries use is text: any non-empty value passes (and nothing panics)
+		verifCase("text-types")
+		texts := []string{"STRING", "CHAR", "CURRENCY", "DATA", "MONTHYEAR", "LOCALMKTDATE", "DATE", "EXCHANGE", "LANGUAGE", "XMLDATA", "COUNTRY",
+			"UTCTIMEONLY", "UTCDATEONLY", "UTCDATE", "TZTIMEONLY", "TZTIMESTAMP", "MULTIPLECHARVALUE", "MULTIPLESTRINGVALUE", "MULTIPLEVALUESTRING"}
+		typ = texts[verifConc(ndInt("text-type", 0, len(texts)-1))]
+		d := &datadictionary.DataDictionary{FieldTypeByTag: map[int]*datadictionary.FieldType{900: datadictionary.NewFieldType("X", 900, typ)}}
+		verifAssert(validateField(d, ValidatorSettings{}, nil, TagValue{tag: 900, value: verifValueN("v", 1)}) == nil, "typed-value-well-formed-accepted")
+		return
 	case 0:
 		verifCase("integer-types")
 		typ = ints[verifConc(ndInt("int-type", 0, len(ints)-1))]
